@@ -2,8 +2,8 @@
 Concrete base64 as `connect.EncodeBinaryHeader` / `connect.DecodeBinaryHeader` use it
 (encode: `base64.RawStdEncoding`, no padding; decode: padded or unpadded, non-strict about
 trailing bits).  This is the instance of the `B64` parameter that the C18 driver runs; the
-theorems of `Props/C18.lean` hold for every (lawful) `B64`, and `Props/C18.lean` proves
-that this instance is lawful.
+theorems of `Props/C18.lean` hold for every (lawful) `B64`; `connect_b64_lawful` there
+(from `Lemmas/Base64.lean`) proves that this instance is lawful.
 -/
 namespace ConfModel.Base64
 
